@@ -227,6 +227,14 @@ fn parse_duration(s: &str) -> Result<Duration, HifitimeError> {
 
 fn parse_offset(s: &str) -> Result<Duration, HifitimeError> {
     let indexes: (usize, usize, usize) = (1, 3, 5);
+    if !s.is_ascii() {
+        // The fixed byte positions below only make sense for ASCII digits and separators;
+        // "-60 μs" is seven bytes long but it is not an offset.
+        return Err(HifitimeError::Parse {
+            source: ParsingError::InvalidTimezone,
+            details: "invalid timezone format [+/-]HH:MM",
+        });
+    }
     let colon = if s.len() == 3 || s.len() == 5 || s.len() == 7 {
         // There is a zero or even number of separators between the hours, minutes, and seconds.
         // Only zero (or one) characters separator is supported. This will return a ValueError later if there is
